@@ -136,14 +136,17 @@ def run(
     extra=(),
     heap="4g",
     dfs=False,
+    libs=(),
 ):
-    """Run TLC on spec/<spec_dir>/<module>.tla with <cfg>. Returns TlcResult. Raises Machinery on tool failure."""
+    """Run TLC on spec/<spec_dir>/<module>.tla with <cfg>. Returns TlcResult. Raises Machinery on tool failure.
+    libs: further spec directories (relative to spec/) whose modules the module extends / instantiates (composition of specifications)."""
     d = spec_dir if os.path.isabs(spec_dir) else os.path.join(SPEC, spec_dir)
     cfg = cfg or module + ".cfg"
     _counter[0] += 1
     meta = os.path.join(scratch(), f"tlc-{_counter[0]}")
     os.makedirs(meta, exist_ok=True)
-    java = ["java", "-XX:+UseParallelGC", f"-Xmx{heap}", "-Xss64m", f"-DTLA-Library={LIB}"]
+    path = os.pathsep.join([LIB] + [x if os.path.isabs(x) else os.path.join(SPEC, x) for x in libs])
+    java = ["java", "-XX:+UseParallelGC", f"-Xmx{heap}", "-Xss64m", f"-DTLA-Library={path}"]
     if dfs:
         java.append("-Dtlc2.tool.queue.IStateQueue=StateDeque")
     cmd = java + ["-cp", f"{JAR}:{DEPS}", "tlc2.TLC", "-metadir", meta, "-noGenerateSpecTE", "-config", cfg]
@@ -185,7 +188,9 @@ def run(
     ]
     bad = [l for l in bad if "is violated" not in l and "The behavior up to" not in l]
     if bad:
-        tail = "\n".join(out.splitlines()[-40:])
+        lines = out.splitlines()
+        at = next((i for i, l in enumerate(lines) if l == bad[0] or bad[0] in l), 0)
+        tail = "\n".join(lines[at:at + 25] + ["..."] + lines[-15:])
         raise Machinery(f"TLC failed on {module} ({cfg}): {bad[0]}\n{tail}")
     return r
 
@@ -203,7 +208,7 @@ def mc(spec_dir, module, cfg=None, *, require_actions=(), **kw):
     return r
 
 
-def tv(spec_dir, module, traces, cfg=None, *, env=None, timeout=900, heap="4g", dfs=False):
+def tv(spec_dir, module, traces, cfg=None, *, env=None, timeout=900, heap="4g", dfs=False, libs=()):
     """Batch trace validation. traces: list of {"id":..., "ev":[...]} (JSON-able).
     The trace spec prints <<"REJ", id, matched, len, evname>> for every trace not consumed to its end.
     Returns (rejected: {id: (matched, length, evname)}, TlcResult)."""
@@ -216,7 +221,7 @@ def tv(spec_dir, module, traces, cfg=None, *, env=None, timeout=900, heap="4g", 
             f.write(json.dumps(t, separators=(",", ":")) + "\n")
     e = dict(env or {})
     e["TRACE_FILE"] = path
-    r = run(spec_dir, module, cfg, workers=1, env=e, deadlock=False, timeout=timeout, heap=heap, dfs=dfs)
+    r = run(spec_dir, module, cfg, workers=1, env=e, deadlock=False, timeout=timeout, heap=heap, dfs=dfs, libs=libs)
     if r.violated:
         raise Machinery(f"trace spec {module} reported {r.violated}:\n" + "\n".join(r.out.splitlines()[-40:]))
     if "Finished in" not in r.out:
@@ -232,10 +237,11 @@ def tv(spec_dir, module, traces, cfg=None, *, env=None, timeout=900, heap="4g", 
     return rej, r
 
 
-def sany(path):
+def sany(path, libs=()):
     d = os.path.dirname(path)
+    lp = os.pathsep.join([LIB] + [os.path.join(SPEC, x) for x in libs])
     p = subprocess.run(
-        ["java", f"-DTLA-Library={LIB}", "-cp", f"{JAR}:{DEPS}", "tla2sany.SANY", os.path.basename(path)],
+        ["java", f"-DTLA-Library={lp}", "-cp", f"{JAR}:{DEPS}", "tla2sany.SANY", os.path.basename(path)],
         cwd=d,
         capture_output=True,
         text=True,
